@@ -175,6 +175,19 @@ def _patch_crosshair():
             STATS["smt_time"] += time.perf_counter() - t
 
     z3.Solver.check = timed_check
+    # CrossHair forks every int/bool/str argument into "realise prematurely" vs "keep symbolic" (a bug-finding heuristic whose
+    # probability grows when a variable gets realised at the end of a path, which this engine always does).  Both sides cover the
+    # same inputs; only the symbolic side can be exhausted.  Never take the premature side.
+    from crosshair.statespace import StateSpace
+
+    orig_fork = StateSpace.fork_parallel
+
+    def fork_parallel(self, false_probability, desc=""):
+        if desc.startswith("premature realize"):
+            return False
+        return orig_fork(self, false_probability, desc)
+
+    StateSpace.fork_parallel = fork_parallel
     _install_quote_model()
     _PATCHED = True
 
@@ -219,9 +232,12 @@ def _path_body(**values):
     space = context_statespace()
     nchoices = len(space.choices_made)
     space.detach_path()
-    rvalues = {k: deep_realize(v) for k, v in values.items()}
-    robs = deep_realize(obs)
-    rrecords = deep_realize(records)
+    if os.environ.get("VERIF_DEBUG_NO_REALIZE"):
+        rvalues, robs, rrecords = {}, None, []
+    else:
+        rvalues = {k: deep_realize(v) for k, v in values.items()}
+        robs = deep_realize(obs)
+        rrecords = deep_realize(records)
     from .findings import split_known
 
     with NoTracing():
